@@ -154,4 +154,10 @@ theorem asm_single {tb : List (Nat × BTR)} {single : Nat → Option (List Funct
     (∀ q ∈ pairs (gs.map (·.addr)), q.1 = a → ((a, b, c) ∈ reqList tb [] ↔ (b = q.2 ∧ c = none))) :=
   C06Asm.rstep_next_single hs hu a b c
 
+/-- an OR-merged edge guard is enabled exactly when one of the merged guards is, where both evaluate to 0/1 constants
+    of one positive width -/
+theorem asm_merged_guard {σ : State} {c₁ c₂ : Expr} (h : C06Asm.OrEvaluable σ c₁ c₂) :
+    guardHolds σ (some (.bin .or c₁ c₂)) ↔ guardHolds σ (some c₁) ∨ guardHolds σ (some c₂) :=
+  C06Asm.merged_guard_enabled h
+
 end Falcon.C06
